@@ -247,6 +247,12 @@ func removeIncludedTaxes(doc billable) error {
 	if err := calculate(doc); err != nil {
 		return err
 	}
+	// The amounts with taxes removed have a greater precision than what is
+	// finally presented, so calculate again from the presented amounts to
+	// ensure the totals are stable before determining any difference.
+	if err := calculate(doc); err != nil {
+		return err
+	}
 
 	// Account for any rounding errors that we just can't handle
 	t := doc.getTotals()
